@@ -177,8 +177,12 @@ func simpleHelper(g *ssa.Function, maxBlocks int) bool {
 		}
 		for _, in := range b.Instrs {
 			switch x := in.(type) {
-			case *ssa.Go, *ssa.Defer, *ssa.Select, *ssa.Send, *ssa.MakeClosure, *ssa.Panic:
+			case *ssa.Go, *ssa.Defer, *ssa.Send, *ssa.MakeClosure, *ssa.Panic:
 				return false
+			case *ssa.Select:
+				if x.Blocking {
+					return false
+				}
 			case *ssa.UnOp:
 				if x.Op == token.ARROW {
 					return false
